@@ -96,7 +96,7 @@ class Env:
 
 
 # ------------------------------------------------------------------------------------------- instances
-def _gap_ok(mat, thr=0.03, pd=True):
+def _gap_ok(mat, thr=0.012, pd=True):
     """Every batch member symmetric with relatively separated eigenvalues (and PD with bounded condition)."""
     if mat.shape[-1] != mat.shape[-2] or mat.shape[-1] == 1:
         return True
@@ -124,10 +124,16 @@ def _sub_ops(op, acc=None, depth=0):
     return acc
 
 
+NOLANCZOS = {"ConstantDiag", "Identity", "KroneckerDiag", "Diag"}
+
+
 def robust(it):
     """The instance and every symmetric square sub-operator a Lanczos run could be started on have separated spectra."""
     from linear_operator.operators import DiagLinearOperator, IdentityLinearOperator, TriangularLinearOperator
     singular = "psd-singular" in it.tags
+    if it.name in NOLANCZOS:
+        it.tags.add("nolanczos")     # diagonal operators: repeated eigenvalues allowed, Lanczos-on-the-whole ops are skipped
+        return True
     if not _gap_ok(it.dense, pd=not singular):
         return False
     if singular:
@@ -197,7 +203,7 @@ def gather_instances(chk, irng, dtype, batch, n, names=None):
     """Catalogue PSD instances (depth 2) + psd-singular ones + own ones, each regenerated until `robust`."""
     res = []
     seen = set()
-    for attempt in range(12):
+    for attempt in range(20):
         sub = random.Random(irng.randrange(2 ** 62))
         pool = C.instances(sub, dtype, batch, n, psd=True, depth=2)
         pool += [it for it in C.instances(sub, dtype, batch, n, psd=False, depth=1) if "psd-singular" in it.tags]
@@ -567,6 +573,8 @@ def evaluate(chk, it, batch, dtype, opname, method, combo, table, lines, pending
     path = eff_path(opname, method, N, mcs, fast, it.name) if opname in ("root", "rootinv", "diag") else "direct"
     if path in ("lanczos", "pinverse-lanczos") and dtype == torch.float32:
         return
+    if "nolanczos" in it.tags and path == "lanczos" and (opname == "diag" or method == "diagonalization"):
+        return
     seed = chk.rng.randrange(2 ** 31)
     r = run_op(it, opname, method, Env(mcs, mr, fast, seed))
     cell = cell_id(it, batch, dtype, opname, method, ml, rl, fast, path)
@@ -786,7 +794,7 @@ def run(chk, only=None):
                 "distinct = distinct cell+values; non-trivial = N > 1")
     chk.assumptions += ["torch.linalg.{cholesky_ex,eigh,svd,inv,solve_triangular} meet their contracts (theorem hypotheses)",
                         "float rounding is not modelled: reconstruction compared with tolerances (1e-9 direct f64, 2e-4 Lanczos incl. documented jitter 1e-6, 1e-3 pivoted Cholesky)",
-                        "Lanczos cells use instances whose symmetric sub-operators all have relative eigenvalue gaps ≥ 0.03"]
+                        "Lanczos cells use instances whose symmetric sub-operators all have relative eigenvalue gaps ≥ 0.012"]
     chk.prove("LinOp.Properties.C06", ["LinOp/C06", "LinOp/Generated/C06Consts.lean", "LinOp/Core/Parse.lean", "LinOp/Core/Basic.lean", "LinOp/Core/Bridge.lean"])
     translator_crosscheck(chk, facts)
     lines, pending = [], []
